@@ -177,11 +177,14 @@ class MinGenSet():
                 var_type="integer"
             )
 
+        # With max_multiplicity > 1 an input number (and thus a product x * gen_set) can be larger than the total
+        max_product = max([self.total] + list(self.numbers))
+
         self.pi_vars = self.solver.add_variables(
             self.x_indexes, 
             name_prefix="pi", 
             lb=0, 
-            ub=self.total, 
+            ub=max_product, 
             var_type="integer" if self.weight_type == int else "continuous"
         )
 
@@ -218,7 +221,7 @@ class MinGenSet():
                             continuous_var=self.genset_vars[(i)],
                             product_var=self.pi_vars[(i, j)],
                             lb=0,
-                            ub=self.total,
+                            ub=max_product,
                             name=f"pi_i={i}_j={j}",
                         )
 
